@@ -10,8 +10,10 @@ import time
 from pathlib import Path
 
 ROOT = Path(__file__).resolve().parent.parent
-EVIDENCE_DIR = ROOT / "evidence"
-REPLAY_DIR = ROOT / "replays"
+# (experiments against a scratch copy of the library - ODFDO_REPO / ODFDO_SRC - can send their evidence elsewhere, so that
+# the committed evidence only ever comes from runs against /repo itself)
+EVIDENCE_DIR = Path(os.environ.get("VERIF_EVIDENCE_DIR", str(ROOT / "evidence")))
+REPLAY_DIR = Path(os.environ.get("VERIF_REPLAY_DIR", str(ROOT / "replays")))
 FINDINGS_FILE = ROOT / "known_findings.json"
 
 REPO = Path(os.environ.get("ODFDO_REPO", "/repo"))
@@ -156,7 +158,7 @@ class Run:
             "violations": len(self.violations),
             "known_findings_hit": self.known_hits,
         }
-        EVIDENCE_DIR.mkdir(exist_ok=True)
+        EVIDENCE_DIR.mkdir(parents=True, exist_ok=True)
         (EVIDENCE_DIR / f"{self.prop}.json").write_text(
             json.dumps(ev, indent=1, default=str) + "\n"
         )
